@@ -1,4 +1,6 @@
 ----------------------------- MODULE MC_Paging -----------------------------
+(* Scenario sets for the quick configurations.  TLC evaluates every constant definition of a module at start-up, *)
+(* so the big sets of the thorough tier live in MC_PagingL.tla.                                                  *)
 EXTENDS Paging
 
 Scn(seg, iters, cont, n, size, pages, cap, fail, tout, rot, dsize) ==
@@ -14,24 +16,49 @@ Canon(s) ==
     /\ (s.cont => s.fail > 0 /\ s.iters > 1)
     /\ (s.cap # Big => s.n > s.cap)
 
-Gen(segs, maxIters, maxN, sizes, pagesSet, caps, maxFail, touts, dsz) ==
-    {s \in {Scn(seg, it, co, n, sz, pg, cap, f, t, rot, dsz) :
-                seg \in segs, it \in 1..maxIters, co \in BOOLEAN, n \in 0..maxN, sz \in sizes, pg \in pagesSet,
-                cap \in caps, f \in 0..maxFail, t \in touts, rot \in BOOLEAN} : Canon(s)}
+Gen(segs, maxIters, ns, sizes, pagesSet, caps, fails, touts, dsz) ==
+    {s \in [seg : segs, iters : 1..maxIters, cont : BOOLEAN, n : ns, size : sizes, pages : pagesSet, cap : caps,
+            fail : fails, tout : touts, rot : BOOLEAN, dsize : {dsz}] : Canon(s)}
 
 AllSegs == {"search", "dsearch", "scroll", "oscroll", "pag", "pit"}
 MainSegs == {"search", "dsearch", "scroll", "pag", "pit"}
 
 (* quick: every combination of <= 4 hits, page size absent/1/2, pages all/1/2/3, exact or capped totals,
    one failing request among the first 6, two iterations *)
-QuickScenarios == Gen(MainSegs, 2, 4, {0, 1, 2}, {0, 1, 2, 3}, {2, Big}, 6, {0, 2}, 2)
+QuickScenarios == Gen(MainSegs, 2, 0..4, {0, 1, 2}, {0, 1, 2, 3}, {2, Big}, 0..6, {0, 2}, 2)
 (* the stale search_after needs a third iteration to reach search_after:null *)
-QuickScenarios3 == Gen({"pag", "pit"}, 3, 3, {1, 2}, {1, 2}, {Big}, 0, {0}, 2)
+QuickScenarios3 == Gen({"pag", "pit"}, 3, 0..3, {1, 2}, {1, 2}, {Big}, {0}, {0}, 2)
 QuickAll == QuickScenarios \cup QuickScenarios3
-IntendedScenarios == Gen(MainSegs, 2, 3, {0, 1, 2}, {0, 1, 2}, {2, Big}, 5, {0, 2}, 2) \cup QuickScenarios3
-ThoroughScenarios == Gen(AllSegs, 2, 6, {0, 1, 2, 3}, {0, 1, 2, 3, 4}, {2, 3, Big}, 9, {0, 1, 3}, 2)
-                     \cup Gen({"pag", "pit", "scroll"}, 3, 5, {1, 2, 3}, {0, 1, 2}, {Big}, 12, {0}, 2)
-SimScenarios == Gen(AllSegs, 3, 9, {0, 1, 2, 3, 4}, {0, 1, 2, 3, 5}, {2, 4, Big}, 14, {0, 1, 2, 5}, 3)
-TableScenarios == Gen(AllSegs, 2, 3, {0, 1, 2}, {0, 1, 2}, {1, Big}, 4, {0, 1}, 2)
-SelfTestScenarios == Gen({"scroll", "pag", "pit"}, 2, 3, {0, 1, 2}, {0, 1, 2}, {Big}, 0, {0}, 2)
+IntendedScenarios == Gen(MainSegs, 2, 0..3, {0, 1, 2}, {0, 1, 2}, {2, Big}, 0..5, {0, 2}, 2) \cup QuickScenarios3
+TableScenarios == Gen(AllSegs, 2, 0..3, {0, 1, 2}, {0, 1, 2}, {1, Big}, 0..4, {0, 1}, 2)
+SelfTestScenarios == Gen({"scroll", "pag", "pit"}, 2, 0..3, {0, 1, 2}, {0, 1, 2}, {Big}, {0}, {0}, 2)
+SelfTestScenarios2 == Gen({"pag"}, 2, 0..4, {1}, {3}, {Big}, {0}, {0}, 2)
+
+(* ---- simulation: the scenario is chosen in three small steps so that wide alphabets need no huge set of initial states ---- *)
+SimSeeds == {s \in [seg : AllSegs, iters : 1..3, cont : BOOLEAN, n : {0}, size : {0}, pages : {0}, cap : {Big},
+                    fail : {0}, tout : {0}, rot : BOOLEAN, dsize : {3}] : s.seg \in {"search", "dsearch", "pag"} => ~s.rot}
+SimNs == 0..10
+SimSizes == 0..4
+SimPages == {0, 1, 2, 3, 4, 6}
+SimCaps == {2, 4, Big}
+SimFails == 0..16
+SimTouts == {0, 1, 2, 3, 5}
+Simple(s) == s.seg \in {"search", "dsearch"}
+InitSim == /\ scn \in SimSeeds /\ es = Es0 /\ rn = [Rn0 EXCEPT !.stage = "cfgA"] /\ wire = <<>> /\ calls = <<>>
+ChooseA == /\ rn.stage = "cfgA"
+           /\ \E n \in SimNs, sz \in SimSizes : scn' = [scn EXCEPT !.n = n, !.size = sz]
+           /\ rn' = [rn EXCEPT !.stage = "cfgB"] /\ UNCHANGED <<es, wire, calls>>
+ChooseB == /\ rn.stage = "cfgB"
+           /\ \E pg \in SimPages, cap \in SimCaps :
+                scn' = [scn EXCEPT !.pages = IF Simple(scn) THEN 0 ELSE pg, !.cap = IF scn.n > cap THEN cap ELSE Big]
+           /\ rn' = [rn EXCEPT !.stage = "cfgC"] /\ UNCHANGED <<es, wire, calls>>
+ChooseC == /\ rn.stage = "cfgC"
+           /\ \E f \in SimFails, t \in SimTouts :
+                LET f2 == IF Simple(scn) THEN (IF f > 1 THEN 0 ELSE f) ELSE f
+                IN scn' = [scn EXCEPT !.fail = f2, !.tout = IF Simple(scn) /\ t > 1 THEN 0 ELSE t,
+                                      !.iters = IF Simple(scn) THEN 1 ELSE @,
+                                      !.cont = @ /\ f2 > 0 /\ scn.iters > 1 /\ ~Simple(scn)]
+           /\ rn' = [rn EXCEPT !.stage = "idle"] /\ UNCHANGED <<es, wire, calls>>
+NextSim == ChooseA \/ ChooseB \/ ChooseC \/ Next
+SpecSim == InitSim /\ [][NextSim]_vars
 =============================================================================
